@@ -204,6 +204,8 @@ def parity_cause(name, args, ra, rb, db, dump_equal, variant):
     None = not a deviation this check knows"""
     a = [x.upper() for x in args[1:]]
     ea, eb = ra[0] == "e", rb[0] == "e"
+    if eb and not dump_equal:
+        eb = False          # the wrapper expression failed (e.g. `#nil`) after the command had taken effect
     if name == "RENAMENX" and not ea:
         return "renamenx-is-rename"
     if name == "SET" and len(args) >= 3:
@@ -536,7 +538,10 @@ class Checker:
                 self.fail("twin", "error class %s became %s inside a script" % (err_class(ra[1]), err_class(rb[1])), det)
         if ok_spec and not diverged:
             if not ok_code:
-                self.disagree.append(det)
+                # the standard table is met by coincidence although the executor answered differently from the handler
+                cause = parity_cause(name, args, ra, rb, tw.db, True, variant)
+                if cause is None or not self.note_known("parity:" + cause, det):
+                    self.disagree.append(det)
             return False
         # ---- the property's oracle fails on this case: find out why
         explained = False
@@ -1297,8 +1302,8 @@ def main(tier, seed):
     r = Rng(seed)
     try:
         q = tier == "quick"
-        layer_twin(ck, r, 70 if q else 2500, 28 if q else 40)
-        layer_programs(ck, r, 25 if q else 900, 14 if q else 30)
+        layer_twin(ck, r, 220 if q else 4000, 30 if q else 40)
+        layer_programs(ck, r, 80 if q else 1500, 16 if q else 30)
         layer_refused(ck)
         layer_sandbox(ck)
         layer_atomic(ck, 3, 150 if q else 1500)
